@@ -776,4 +776,383 @@ theorem passes_iff_matches (r : Req) (h : GoodReq r) (n : Bytes) :
         cases h2 : glob (splitPattern r.pattern).2 (List.drop (splitPattern r.pattern).1.length n) <;>
           cases h3 : glob r.excl n <;> simp [he]
 
+/-! ### expired entries: the refill loop of `doListValidEntries` with deletions -/
+
+/-- deleting the expired entries of a page = filtering their keys out -/
+theorem delExpired_eq_filter (dk : Bytes) (page : List (Bytes × Bool)) (db : Db) :
+    delExpired dk page db = db.filter (fun e => !(page.any fun p => p.2 && decide (e.key = dk ++ p.1))) := by
+  unfold delExpired
+  induction page generalizing db with
+  | nil => simp only [List.foldl_nil, List.any_nil, Bool.not_false]; exact (List.filter_eq_self.2 (fun _ _ => rfl)).symm
+  | cons p ps ih =>
+    simp only [List.foldl_cons]
+    rw [ih]
+    by_cases hp : p.2 = true
+    · simp only [hp, if_true, dbDel, List.filter_filter]
+      apply List.filter_congr
+      intro e _
+      by_cases hk : e.key = dk ++ p.1 <;> simp [hp, hk]
+    · have hp' : p.2 = false := by simpa using hp
+      simp only [hp', Bool.false_eq_true, if_false]
+      apply List.filter_congr
+      intro e _
+      simp [hp']
+
+theorem delExpired_sorted (dk : Bytes) (page : List (Bytes × Bool)) (db : Db) (hs : SortedDb db) :
+    SortedDb (delExpired dk page db) := by
+  rw [delExpired_eq_filter]; exact List.Pairwise.sublist List.filter_sublist hs
+
+theorem delExpired_mem (dk : Bytes) (page : List (Bytes × Bool)) (db : Db) (e : Ent) (h : e ∈ delExpired dk page db) : e ∈ db := by
+  rw [delExpired_eq_filter] at h; exact (List.mem_filter.1 h).1
+
+theorem delExpired_length_le (dk : Bytes) (page : List (Bytes × Bool)) (db : Db) : (delExpired dk page db).length ≤ db.length := by
+  rw [delExpired_eq_filter]; exact List.length_filter_le _ _
+
+/-- deleting a page's expired entries does not touch what is selected after the page's last name -/
+theorem selected_after_del (nameOf : Bytes → Bytes) (dk : Bytes) (db : Db) (start : Bytes) (incl : Bool) (pfx : Bytes) (n : Nat)
+    (l : Bytes × Bool) (hs : SortedDb db) (hwf : ∀ e ∈ db, isPrefix dk e.key = true → e.key = dk ++ nameOf e.key)
+    (hl : ((selected nameOf dk db start incl pfx).take n).getLast? = some l) :
+    selected nameOf dk (delExpired dk ((selected nameOf dk db start incl pfx).take n) db) l.1 false pfx =
+      (selected nameOf dk db start incl pfx).drop n := by
+  rw [← selected_after nameOf dk db start incl pfx n l hs hwf hl]
+  generalize hpage : (selected nameOf dk db start incl pfx).take n = page at hl
+  have hsorted : SortedBy (fun p : Bytes × Bool => p.1) page := by
+    rw [← hpage]
+    exact List.Pairwise.sublist (List.take_sublist _ _)
+      (List.Pairwise.sublist List.filter_sublist (children_sorted nameOf dk db hs hwf))
+  -- every name of the page is ≤ the last one
+  have hle : ∀ p ∈ page, ltB l.1 p.1 = false := by
+    obtain ⟨A, hA⟩ := List.getLast?_eq_some_iff.1 hl
+    intro p hp
+    rw [hA] at hp hsorted
+    rcases List.mem_append.1 hp with hp | hp
+    · have := (List.pairwise_append.1 hsorted).2.2 p hp l (by simp)
+      exact ltB_asymm _ _ this
+    · simp only [List.mem_singleton] at hp; subst hp; exact ltB_irrefl _
+  unfold selected children
+  rw [delExpired_eq_filter]
+  simp only [List.filter_map, List.filter_filter]
+  congr 1
+  apply List.filter_congr
+  intro e he
+  simp only [Function.comp]
+  by_cases hP : isPrefix dk e.key = true
+  · by_cases hS : sel l.1 false pfx (nameOf e.key, e.expired) = true
+    · have hlt : ltB l.1 (nameOf e.key) = true := by
+        have h := hS
+        unfold sel afterStart at h
+        simp only [Bool.and_eq_true] at h
+        simpa using h.2
+      have hq : (page.any fun p => p.2 && decide (e.key = dk ++ p.1)) = false := by
+        rw [List.any_eq_false]
+        intro p hp hcon
+        simp only [Bool.and_eq_true, decide_eq_true_eq] at hcon
+        have hk := hwf e he hP
+        rw [hk] at hcon
+        have : nameOf e.key = p.1 := List.append_cancel_left hcon.2
+        rw [this, hle p hp] at hlt; cases hlt
+      simp [hq, hP, hS]
+    · have hS' : sel l.1 false pfx (nameOf e.key, e.expired) = false := by simpa using hS
+      simp [hS']
+  · have hP' : isPrefix dk e.key = false := by simpa using hP
+    simp [hP']
+
+theorem countP_expired (page : List (Bytes × Bool)) :
+    page.countP (·.2) = page.length - (page.filter fun p => !p.2).length := by
+  induction page with
+  | nil => rfl
+  | cons p ps ih =>
+    have := List.length_filter_le (fun p : Bytes × Bool => !p.2) ps
+    cases hp : p.2 <;> simp [List.countP_cons, List.filter_cons, hp, ih] <;> omega
+
+/-- LAYER 2: `doListValidEntries` over a native store, with expired entries being deleted on the way:
+    the names handed on are the first `limit` LIVE selected children -/
+theorem listValid_exact (k : Kind) (dk pfx : Bytes) (hnat : k.native = true ∨ pfx = []) :
+    ∀ (fuel : Nat) (db : Db) (start : Bytes) (incl : Bool) (limit : Nat), SortedDb db →
+      (∀ e ∈ db, isPrefix dk e.key = true → e.key = dk ++ k.nameOf e.key) → (start = [] ∨ ltB start pfx = false) →
+      (selected k.nameOf dk db start incl pfx).length < fuel →
+      (listValid k dk pfx fuel db start incl limit).1 =
+        (refill (fun p : Bytes × Bool => !p.2) fuel (selected k.nameOf dk db start incl pfx) limit).map (·.1) := by
+  intro fuel
+  induction fuel with
+  | zero => intro _ _ _ _ _ _ _ h; omega
+  | succ f ih =>
+    intro db start incl limit hs hwf hstart hlen
+    unfold listValid refill dirList
+    rw [if_pos hnat]
+    simp only
+    rw [storeList_exact k.nameOf dk db start incl limit pfx hs hwf hstart]
+    have hsel : (children k.nameOf dk db).filter (sel start incl pfx) = selected k.nameOf dk db start incl pfx := rfl
+    rw [hsel]
+    generalize hS : selected k.nameOf dk db start incl pfx = S at hlen ⊢
+    rw [countP_expired]
+    by_cases hm : (S.take limit).length - ((S.take limit).filter fun p => !p.2).length = 0
+    · rw [if_pos hm, if_pos hm]
+    · rw [if_neg hm, if_neg hm]
+      have hne : S.take limit ≠ [] := by intro h; rw [h] at hm; simp at hm
+      obtain ⟨l, hl⟩ : ∃ l, (S.take limit).getLast? = some l := by
+        cases h : (S.take limit).getLast? with
+        | none => exact absurd (List.getLast?_eq_none_iff.1 h) hne
+        | some l => exact ⟨l, rfl⟩
+      have hlast : lastName (S.take limit) = l.1 := lastName_eq _ _ hl
+      have hlmem : l ∈ S := List.mem_of_mem_take (List.mem_of_getLast? hl)
+      have hlsel : sel start incl pfx l = true := by rw [← hS] at hlmem; exact (List.mem_filter.1 hlmem).2
+      have hlpfx : isPrefix pfx l.1 = true := by
+        unfold sel at hlsel; simp only [Bool.and_eq_true] at hlsel; exact hlsel.1.2
+      have hnext : selected k.nameOf dk (delExpired dk (S.take limit) db) l.1 false pfx = S.drop limit := by
+        rw [← hS]; exact selected_after_del k.nameOf dk db start incl pfx limit l hs hwf (by rw [hS]; exact hl)
+      have hlim : 0 < limit := by
+        cases limit with
+        | zero => simp at hne
+        | succ _ => omega
+      have hSne : S ≠ [] := by intro h; rw [h] at hlmem; cases hlmem
+      have hdl : (S.drop limit).length < f := by
+        have : 0 < S.length := List.length_pos_iff.mpr hSne
+        rw [List.length_drop]; omega
+      rw [hlast]
+      have := ih (delExpired dk (S.take limit) db) l.1 false
+        ((S.take limit).length - ((S.take limit).filter fun p => !p.2).length)
+        (delExpired_sorted dk _ db hs) (fun e he => hwf e (delExpired_mem dk _ db e he))
+        (Or.inr (not_lt_of_isPrefix pfx l.1 hlpfx)) (by rw [hnext]; exact hdl)
+      rw [hnext] at this
+      simp only [this, List.map_append]
+
+/-! ### the filer layers over ANY store path that lists a live directory correctly -/
+
+/-- what the refill loops need from `doListDirectoryEntries` (directory without expired entries):
+    the page is the first `limit` selected children, the database is unchanged, and listing again
+    from the returned `lastFileName` (exclusive) resumes exactly after the page.
+    `Ok` = the start names for which this holds (native stores: not before the prefix). -/
+def DirListLive (k : Kind) (dk pfx : Bytes) (db : Db) (Ok : Bytes → Prop) : Prop :=
+  ∀ (start : Bytes) (incl : Bool) (limit : Nat), Ok start →
+    ∃ last, dirList k dk db start incl limit pfx = ((selected k.nameOf dk db start incl pfx).take limit, last, db) ∧
+      ((selected k.nameOf dk db start incl pfx).take limit ≠ [] →
+        selected k.nameOf dk db last false pfx = (selected k.nameOf dk db start incl pfx).drop limit ∧ Ok last)
+
+theorem getLast?_of_ne_nil {α : Type} (l : List α) (h : l ≠ []) : ∃ x, l.getLast? = some x := by
+  cases hl : l.getLast? with
+  | none => exact absurd (List.getLast?_eq_none_iff.1 hl) h
+  | some x => exact ⟨x, rfl⟩
+
+/-- native stores (and any store when no name prefix is asked for) -/
+theorem dirListLive_native (k : Kind) (dk pfx : Bytes) (db : Db) (hnat : k.native = true ∨ pfx = []) (hs : SortedDb db)
+    (hwf : ∀ e ∈ db, isPrefix dk e.key = true → e.key = dk ++ k.nameOf e.key)
+    (hlive : ∀ p ∈ children k.nameOf dk db, p.2 = false) :
+    DirListLive k dk pfx db (fun s => s = [] ∨ ltB s pfx = false) := by
+  intro start incl limit hstart
+  refine ⟨_, dirList_live k dk db start incl limit pfx hnat hs hwf hlive hstart, ?_⟩
+  intro hne
+  obtain ⟨l, hl⟩ := getLast?_of_ne_nil _ hne
+  rw [lastName_eq _ _ hl]
+  refine ⟨selected_after k.nameOf dk db start incl pfx limit l hs hwf hl, Or.inr ?_⟩
+  have hlmem : l ∈ selected k.nameOf dk db start incl pfx := List.mem_of_mem_take (List.mem_of_getLast? hl)
+  have hlsel : sel start incl pfx l = true := (List.mem_filter.1 hlmem).2
+  unfold sel at hlsel; simp only [Bool.and_eq_true] at hlsel
+  exact not_lt_of_isPrefix pfx l.1 hlsel.1.2
+
+theorem streamLoop_live' (k : Kind) (dk pfx rest excl : Bytes) (db : Db) (Ok : Bytes → Prop)
+    (hdl : DirListLive k dk pfx db Ok) (hlive : ∀ p ∈ children k.nameOf dk db, p.2 = false) :
+    ∀ (fuel : Nat) (start : Bytes) (incl : Bool) (limit : Nat), Ok start →
+      (selected k.nameOf dk db start incl pfx).length < fuel →
+      (streamLoop k dk pfx rest excl fuel db start incl limit).map (·.1) =
+        some (refill (passes pfx rest excl) fuel ((selected k.nameOf dk db start incl pfx).map (·.1)) limit) := by
+  intro fuel
+  induction fuel with
+  | zero => intro _ _ _ _ h; omega
+  | succ f ih =>
+    intro start incl limit hstart hlen
+    obtain ⟨last, hd, hres⟩ := hdl start incl limit hstart
+    unfold streamLoop refill
+    have hfuel : db.length + 2 = (db.length + 1) + 1 := rfl
+    rw [hfuel]
+    unfold listValid
+    rw [hd]
+    simp only
+    generalize hS : selected k.nameOf dk db start incl pfx = S at hlen hres ⊢
+    have hl : ∀ p ∈ S.take limit, p.2 = false := by
+      intro p hp; rw [← hS] at hp; exact hlive p (List.mem_filter.1 (List.mem_of_mem_take hp)).1
+    have h0 : (S.take limit).countP (·.2) = 0 := by
+      rw [List.countP_eq_zero]; intro p hp; simp [hl p hp]
+    have hf : (S.take limit).filter (fun p => !p.2) = S.take limit := by
+      rw [List.filter_eq_self]; intro p hp; simp [hl p hp]
+    rw [if_pos h0, hf]
+    simp only [List.map_take]
+    by_cases hm : ((S.map (·.1)).take limit).length - (((S.map (·.1)).take limit).filter (passes pfx rest excl)).length = 0
+    · rw [if_pos hm, if_pos hm]; rfl
+    · rw [if_neg hm, if_neg hm]
+      have hne : S.take limit ≠ [] := by
+        intro h; rw [← List.map_take, h] at hm; simp at hm
+      obtain ⟨hnext, hok⟩ := hres hne
+      have hlim : 0 < limit := by
+        cases limit with
+        | zero => simp at hne
+        | succ _ => omega
+      have hSne : S ≠ [] := by intro h; rw [h] at hne; simp at hne
+      have hdl' : (S.drop limit).length < f := by
+        have : 0 < S.length := List.length_pos_iff.mpr hSne
+        rw [List.length_drop]; omega
+      have := ih last false (((S.map (·.1)).take limit).length - (((S.map (·.1)).take limit).filter (passes pfx rest excl)).length)
+        hok (by rw [hnext]; exact hdl')
+      rw [hnext, List.map_drop] at this
+      cases hrec : streamLoop k dk pfx rest excl f db last false
+          (((S.map (·.1)).take limit).length - (((S.map (·.1)).take limit).filter (passes pfx rest excl)).length) with
+      | none => rw [hrec] at this; simp at this
+      | some t =>
+        rw [hrec] at this
+        simp only [Option.map_some, Option.some.injEq] at this
+        simp only [Option.map_some, this]
+
+/-! ### the generic path: `prefixFilterEntries` (as fixed) over a live directory -/
+
+theorem ltB_nil_right (s : Bytes) : ltB s [] = false := by cases s <;> rfl
+
+theorem storeList_noprefix (nameOf : Bytes → Bytes) (dk : Bytes) (db : Db) (s : Bytes) (i : Bool) (limit : Nat) (hs : SortedDb db)
+    (hwf : ∀ e ∈ db, isPrefix dk e.key = true → e.key = dk ++ nameOf e.key) :
+    storeList nameOf dk db s i limit [] = (selected nameOf dk db s i []).take limit :=
+  storeList_exact nameOf dk db s i limit [] hs hwf (Or.inr (ltB_nil_right s))
+
+theorem selected_filter_prefix (nameOf : Bytes → Bytes) (dk : Bytes) (db : Db) (s : Bytes) (i : Bool) (pfx : Bytes) :
+    (selected nameOf dk db s i []).filter (fun p => isPrefix pfx p.1) = selected nameOf dk db s i pfx := by
+  unfold selected
+  rw [List.filter_filter]
+  apply List.filter_congr
+  intro x _
+  simp only [sel, isPrefix]
+  cases decide (x.1 ≠ []) <;> cases isPrefix pfx x.1 <;> cases afterStart s i x.1 <;> rfl
+
+theorem prefixFilterLoop_live (nameOf : Bytes → Bytes) (dk pfx : Bytes) (limit : Nat) (db : Db) (hs : SortedDb db)
+    (hwf : ∀ e ∈ db, isPrefix dk e.key = true → e.key = dk ++ nameOf e.key)
+    (hlive : ∀ p ∈ children nameOf dk db, p.2 = false) :
+    ∀ (fuel : Nat) (s : Bytes) (i : Bool) (need : Nat) (last : Bytes), (selected nameOf dk db s i []).length < fuel →
+      (0 < limit ∨ need = 0) →
+      ∃ last', prefixFilterLoop nameOf dk pfx limit fuel db ((selected nameOf dk db s i []).take limit) need last =
+          (((selected nameOf dk db s i []).filter fun p => isPrefix pfx p.1).take need, last', db) ∧
+        ((selected nameOf dk db last false [] = selected nameOf dk db s i [] ∨
+            ((selected nameOf dk db s i []).filter fun p => isPrefix pfx p.1).take need ≠ []) →
+          selected nameOf dk db last' false pfx = ((selected nameOf dk db s i []).filter fun p => isPrefix pfx p.1).drop need) := by
+  intro fuel
+  induction fuel with
+  | zero => intro _ _ _ _ h; omega
+  | succ f ih =>
+    intro s i need last hlen hlim
+    generalize hR : selected nameOf dk db s i [] = R at hlen ⊢
+    unfold prefixFilterLoop
+    by_cases hbase : need = 0 ∨ R.take limit = []
+    · rw [if_pos hbase]
+      have hRn : need = 0 ∨ R = [] := by
+        rcases hbase with h | h
+        · exact Or.inl h
+        · rcases hlim with h' | h'
+          · right
+            cases R with
+            | nil => rfl
+            | cons a t =>
+              obtain ⟨m, hm⟩ : ∃ m, limit = m + 1 := ⟨limit - 1, by omega⟩
+              rw [hm] at h; simp at h
+          · exact Or.inl h'
+      have hnil : (R.filter fun p => isPrefix pfx p.1).take need = [] := by
+        rcases hRn with h | h
+        · rw [h]; rfl
+        · rw [h]; simp
+      refine ⟨last, by rw [hnil], ?_⟩
+      intro hinv
+      rcases hinv with hinv | hinv
+      · rw [← selected_filter_prefix, hinv]
+        rcases hRn with h | h
+        · rw [h]; rfl
+        · rw [h]; simp
+      · exact absurd hnil hinv
+    · rw [if_neg hbase]
+      have hneed : 0 < need := by
+        have : ¬ need = 0 := fun h => hbase (Or.inl h)
+        omega
+      have hpne : R.take limit ≠ [] := fun h => hbase (Or.inr h)
+      have hlim' : 0 < limit := by
+        cases limit with
+        | zero => simp at hpne
+        | succ _ => omega
+      -- no expired entries: nothing is deleted
+      have hdel : delExpired dk (((R.take limit).filter fun p => isPrefix pfx p.1).take need) db = db := by
+        apply delExpired_live
+        intro p hp
+        have h1 : p ∈ R := List.mem_of_mem_take (List.mem_filter.1 (List.mem_of_mem_take hp)).1
+        rw [← hR] at h1
+        exact hlive p (List.mem_filter.1 h1).1
+      simp only [hdel]
+      have hsplit : R.filter (fun p => isPrefix pfx p.1) =
+          (R.take limit).filter (fun p => isPrefix pfx p.1) ++ (R.drop limit).filter (fun p => isPrefix pfx p.1) := by
+        rw [← List.filter_append, List.take_append_drop]
+      generalize hA : (R.take limit).filter (fun p => isPrefix pfx p.1) = A at hsplit ⊢
+      by_cases hshort : (A.take need).length < need
+      · rw [if_pos hshort]
+        have hAl : A.length < need := by
+          rw [List.length_take] at hshort; omega
+        have hAt : A.take need = A := List.take_of_length_le (by omega)
+        -- refill after the page's last name
+        obtain ⟨l, hl⟩ := getLast?_of_ne_nil _ hpne
+        have hlast1 : lastName (R.take limit) = l.1 := lastName_eq _ _ hl
+        have hnext : selected nameOf dk db l.1 false [] = R.drop limit := by
+          rw [← hR]; exact selected_after nameOf dk db s i [] limit l hs hwf (by rw [hR]; exact hl)
+        have hRne : R ≠ [] := by intro h; rw [h] at hpne; simp at hpne
+        have hdl : (selected nameOf dk db l.1 false []).length < f := by
+          rw [hnext, List.length_drop]
+          have : 0 < R.length := List.length_pos_iff.mpr hRne
+          omega
+        rw [hlast1, storeList_noprefix nameOf dk db l.1 false limit hs hwf]
+        obtain ⟨last', heq, hres⟩ := ih l.1 false (need - (A.take need).length) l.1 hdl (Or.inl hlim')
+        rw [heq]
+        simp only
+        rw [hnext] at hres ⊢
+        refine ⟨last', ?_, ?_⟩
+        · rw [hsplit, List.take_append, hAt]
+        · intro _
+          rw [hsplit, List.drop_append, List.drop_of_length_le (by omega), List.nil_append]
+          rw [hAt] at hres
+          exact hres (Or.inl rfl)
+      · rw [if_neg hshort]
+        have hAl : need ≤ A.length := by
+          rw [List.length_take] at hshort; omega
+        have htake : (R.filter fun p => isPrefix pfx p.1).take need = A.take need := by
+          rw [hsplit, List.take_append_of_le_length hAl]
+        refine ⟨lastName (A.take need), by rw [htake], ?_⟩
+        intro _
+        have hne : A.take need ≠ [] := by
+          intro h
+          have : (A.take need).length = 0 := by rw [h]; rfl
+          rw [List.length_take] at this; omega
+        obtain ⟨l, hl⟩ := getLast?_of_ne_nil _ hne
+        rw [lastName_eq _ _ hl, ← hR, selected_filter_prefix]
+        apply selected_after nameOf dk db s i pfx need l hs hwf
+        rw [← selected_filter_prefix, hR, htake]; exact hl
+
+/-- the generic path (stores answering `ErrUnsupportedListDirectoryPrefixed`) is a correct
+    `doListDirectoryEntries` too, for every start name -/
+theorem dirListLive_generic (k : Kind) (dk pfx : Bytes) (db : Db) (hgen : k.native = false) (hpfx : pfx ≠ []) (hs : SortedDb db)
+    (hwf : ∀ e ∈ db, isPrefix dk e.key = true → e.key = dk ++ k.nameOf e.key)
+    (hlive : ∀ p ∈ children k.nameOf dk db, p.2 = false) :
+    DirListLive k dk pfx db (fun _ => True) := by
+  intro start incl limit _
+  unfold dirList
+  have hcond : ¬ (k.native = true ∨ pfx = []) := by
+    intro h; rcases h with h | h
+    · rw [hgen] at h; cases h
+    · exact hpfx h
+  rw [if_neg hcond]
+  simp only
+  rw [storeList_noprefix k.nameOf dk db start incl limit hs hwf]
+  have hlen : (selected k.nameOf dk db start incl []).length < db.length + 2 := by
+    have h1 : (selected k.nameOf dk db start incl []).length ≤ db.length := by
+      unfold selected children
+      refine Nat.le_trans (List.length_filter_le _ _) ?_
+      rw [List.length_map]
+      exact List.length_filter_le _ _
+    omega
+  have hlim : 0 < limit ∨ limit = 0 := by omega
+  obtain ⟨last', heq, hres⟩ := prefixFilterLoop_live k.nameOf dk pfx limit db hs hwf hlive (db.length + 2) start incl limit
+    (lastName ((selected k.nameOf dk db start incl []).take limit)) hlen hlim
+  rw [selected_filter_prefix] at heq hres
+  refine ⟨last', heq, ?_⟩
+  intro hne
+  exact ⟨hres (Or.inr hne), trivial⟩
+
 end SwV.Lemmas.C19
